@@ -142,7 +142,12 @@ pub fn gen_claims(r: &mut Rng, cfg: &TreeCfg, now: u64) -> Value {
     let mut m = Map::new();
     // standard claims at random places among the others
     let body = gen_members(r, cfg, 1);
-    let iss = if cfg.plain || r.chance(2, 3) { "https://issuer.example".to_string() } else { gen_string(r, false) };
+    let iss = if cfg.plain || r.chance(2, 3) {
+        // issuer identifiers are opaque strings: spellings that differ only by a trailing slash or blanks are different issuers
+        r.pick(&["https://issuer.example", "https://issuer.example", "https://issuer.example/", "https://issuer.example/tenant//", " https://issuer.example ", "HTTPS://Issuer.Example"]).to_string()
+    } else {
+        gen_string(r, false)
+    };
     let exp = now + 3600 + r.next() % (FAR_FUTURE - now - 3600);
     let mut std: Vec<(String, Value)> = vec![("iss".into(), json!(iss)), ("exp".into(), json!(exp))];
     if r.chance(1, 2) {
